@@ -266,10 +266,13 @@ func negotiateFeatures(ctx context.Context, s *Session, first, ws bool, features
 
 		mask, rw, err = data.feature.Negotiate(ctx, s, s.features[data.feature.Name.Space])
 		s.in.d = oldDecoder
-		if err == nil {
-			s.state |= mask
-		}
 		s.negotiated[data.feature.Name.Space] = struct{}{}
+		if err != nil {
+			// Do not continue on to other features (which would overwrite the
+			// error) if negotiating a feature failed, even an optional one.
+			return mask, rw, err
+		}
+		s.state |= mask
 
 		// If we negotiated a required feature or a stream restart is required
 		// we're done with this feature set.
